@@ -1319,6 +1319,9 @@ class Container:
 
         if solvent == solute:
             raise ValueError("Solute and solvent must be different.")
+        if isinstance(solvent, Substance) and solvent.is_enzyme():
+            # (an enzyme has no molar mass, and its density is in activity units: it cannot be the diluent)
+            raise ValueError("Solvent must not be an enzyme.")
 
         if not name:
             name = f"solution of {solute.name} in {solvent.name}"
@@ -1330,7 +1333,7 @@ class Container:
                                       'mol') for substance, value in source.contents.items())
         volume = Unit.convert_from_storage(source.volume, 'mL')
         d_x = mass / volume
-        mw_x = mass / moles
+        mw_x = mass / moles if moles else float('inf')  # (a source of enzymes only holds no moles)
         m_x = Unit.convert_from_storage(source.contents.get(solute, 0), 'mol') / (volume / 1000)
 
         if isinstance(solvent, Container):
